@@ -85,7 +85,7 @@ func (e *C02) Plan(tier string, seed uint64) int {
 	if tier == "thorough" {
 		return 120000
 	}
-	return 9000
+	return 30000
 }
 func (e *C02) MinNontrivial(tier string) int                { return 40 }
 func (e *C02) CPUBudget(tier string, idx int) time.Duration { return 120 * time.Second }
@@ -187,7 +187,7 @@ func (e *C14) Plan(tier string, seed uint64) int {
 	if tier == "thorough" {
 		return 100000
 	}
-	return 8000
+	return 24000
 }
 func (e *C14) MinNontrivial(tier string) int { return 30 }
 func (e *C14) InitWorker(c *core.Ctx) {
